@@ -266,6 +266,7 @@ func init() {
 			return nil
 		},
 	}
+	registerGob()
 }
 
 func (m *machine) noteConst(name string, v int64) {
